@@ -50,6 +50,13 @@ type Run interface {
 	Outcome() string
 }
 
+// Historian is implemented by runs that fold everything they observed (returned handles, iteration orders,
+// events, return values) into a running hash. The explorer stores it per state and requires every replay of
+// the same history to reproduce it.
+type Historian interface {
+	Hist() uint64
+}
+
 // Scenario creates runs and names operations.
 type Scenario interface {
 	Name() string
@@ -68,6 +75,9 @@ type Config struct {
 	KeepKeys  bool          // keep ordered (key) list per level (for cross-process determinism comparison)
 	OnLevel   func(depth int, st *Stats)
 	IsKnown   func(f *Failure) bool // known findings (pruned, reported once)
+	CheckEveryReplay bool               // compare state key and history hash after every replay, not only the first per state
+	DumpLevel int                       // if > 0: call Dump for every new state found at this depth
+	Dump      func(path []Op, key [16]byte, hist uint64)
 }
 
 // Found is a failure with the shortest history that produced it.
@@ -94,6 +104,7 @@ type Stats struct {
 	Found           []*Found
 	Samples         [][]string
 	LevelDigests    []string
+	LevelTrans      []int
 	Wall            time.Duration
 	FrontierSizes   []int
 }
@@ -107,6 +118,7 @@ type key [16]byte
 
 type res struct {
 	op      Op
+	hist    uint64
 	key     key
 	fail    *Failure
 	prune   bool
@@ -137,6 +149,13 @@ func (s *seenSet) add(k key) bool {
 	return true
 }
 
+func histOf(r Run) uint64 {
+	if h, ok := r.(Historian); ok {
+		return h.Hist()
+	}
+	return 0
+}
+
 func hashKey(b []byte) key {
 	h := sha256.Sum256(b)
 	var k key
@@ -150,6 +169,7 @@ type Explorer struct {
 	cfg   Config
 	nodes []node
 	keys  []key
+	hists []uint64
 }
 
 func (e *Explorer) path(i int32) []Op {
@@ -224,6 +244,7 @@ func Explore(sc Scenario, cfg Config) *Stats {
 	rk := hashKey(root.Key(nil))
 	e.nodes = append(e.nodes, node{-1, Op{}})
 	e.keys = append(e.keys, rk)
+	e.hists = append(e.hists, histOf(root))
 	seen := newSeen()
 	seen.add(rk)
 	frontier := []int32{0}
@@ -289,6 +310,11 @@ func Explore(sc Scenario, cfg Config) *Stats {
 						o.done = true
 						continue
 					}
+					if histOf(cur) != e.hists[si] {
+						o.stateErr = &Failure{Prop: "C13", Sig: "NONDET:replay-transcript", Msg: "replaying the same history on a fresh world produced different observations (handles, iteration order, events or return values)"}
+						o.done = true
+						continue
+					}
 					if f := cur.Check(); f != nil {
 						o.stateErr = f
 						o.done = true
@@ -300,21 +326,33 @@ func Explore(sc Scenario, cfg Config) *Stats {
 					for _, op := range ops {
 						if !fresh {
 							cur, _, _ = Replay(sc, p, false)
+							if cfg.CheckEveryReplay {
+								buf = cur.Key(buf[:0])
+								if hashKey(buf) != ck || histOf(cur) != e.hists[si] {
+									o.stateErr = &Failure{Prop: "C13", Sig: "NONDET:replay-key", Msg: "replaying the same history on a fresh world produced a different state or different observations"}
+									break
+								}
+							}
 						}
 						x := cur.Apply(op)
 						r := res{op: op, fail: x.Fail, prune: x.Prune, outcome: cur.Outcome()}
 						if x.Fail == nil {
 							buf = cur.Key(buf[:0])
 							r.key = hashKey(buf)
+							r.hist = histOf(cur)
 							if r.key == ck {
 								r.self = true
 							} else {
 								fresh = false
 							}
+							if r.hist != e.hists[si] {
+								// the run's observation history moved on: it is no longer a faithful replay of the parent
+								fresh = false
+							}
 						} else {
 							fresh = false
 						}
-						if r.self {
+						if r.self && r.hist == e.hists[si] {
 							fresh = true
 						}
 						o.rs = append(o.rs, r)
@@ -359,6 +397,10 @@ func Explore(sc Scenario, cfg Config) *Stats {
 				}
 				e.nodes = append(e.nodes, node{si, r.op})
 				e.keys = append(e.keys, r.key)
+				e.hists = append(e.hists, r.hist)
+				if cfg.Dump != nil && cfg.DumpLevel == depth+1 {
+					cfg.Dump(append(e.path(si), r.op), r.key, r.hist)
+				}
 				nextFrontier = append(nextFrontier, int32(len(e.nodes)-1))
 				st.States++
 				if cfg.KeepKeys {
@@ -378,7 +420,15 @@ func Explore(sc Scenario, cfg Config) *Stats {
 			for _, k := range levelKeys {
 				h.Write(k[:])
 			}
+			for _, ni := range nextFrontier {
+				var hb [8]byte
+				for b := 0; b < 8; b++ {
+					hb[b] = byte(e.hists[ni] >> (8 * b))
+				}
+				h.Write(hb[:])
+			}
 			st.LevelDigests = append(st.LevelDigests, fmt.Sprintf("%x", h.Sum(nil)[:12]))
+			st.LevelTrans = append(st.LevelTrans, st.Transitions)
 		}
 		frontier = nextFrontier
 		if cfg.OnLevel != nil {
